@@ -26,6 +26,7 @@ type consumerPlan struct {
 type relayScenario struct {
 	Conf      srv.Conf
 	Shape     gen.Shape
+	More      []gen.Shape // further incarnations of the same stream name, published one after the other
 	PubChunk  int
 	Consumers []consumerPlan
 	Push      bool
@@ -40,6 +41,12 @@ type recvItem struct {
 	Len  int
 }
 
+// tsRec is what a TS consumer received, demultiplexed by the reference demuxer.
+type tsRec struct {
+	Demux *ref.TsDemux
+	Len   int
+}
+
 type consumerRec struct {
 	Plan     consumerPlan
 	Kind     string
@@ -49,6 +56,8 @@ type consumerRec struct {
 	ParseErr string
 	Admitted bool
 	Note     string
+	Ts       *tsRec
+	IncStart []int // first global index of each incarnation
 }
 
 type relayResult struct {
@@ -93,6 +102,9 @@ func (lc *liveConsumer) count() int {
 	if lc.rtmp != nil {
 		return lc.rtmp.Hist.Len()
 	}
+	if lc.http.Kind == "ts" {
+		return lc.http.BodyLen() / 188
+	}
 	return lc.http.NumTags()
 }
 
@@ -113,6 +125,8 @@ func startConsumer(s *srv.Server, kind, stream string) (*liveConsumer, error) {
 		lc.http, err = srv.StartHttpSub(s.HttpAddr(), "/live/"+stream+".flv", "flv", 5*time.Second)
 	case "wsflv":
 		lc.http, err = srv.StartHttpSub(s.HttpAddr(), "/live/"+stream+".flv", "wsflv", 5*time.Second)
+	case "ts":
+		lc.http, err = srv.StartHttpSub(s.HttpAddr(), "/live/"+stream+".ts", "ts", 5*time.Second)
 	default:
 		err = fmt.Errorf("unknown consumer kind %s", kind)
 	}
@@ -156,12 +170,17 @@ func runRelay(c *fw.Ctx, sc relayScenario, rng *rand.Rand) (res relayResult) {
 			s.Stop()
 		}
 	}()
-	res.Pub = gen.Build(rng, 1, sc.Shape)
+	shapes := append([]gen.Shape{sc.Shape}, sc.More...)
+	var incStart []int
+	for k, sh := range shapes {
+		incStart = append(incStart, len(res.Pub))
+		res.Pub = append(res.Pub, gen.BuildAt(rng, k+1, sh, len(res.Pub))...)
+	}
 	pub := res.Pub
 	ix := gen.NewIndex(pub)
 	var live []*liveConsumer
 	join := func(p consumerPlan, k int) {
-		rec := &consumerRec{Plan: p, Kind: p.Kind, JoinK: k, LeftAt: -1}
+		rec := &consumerRec{Plan: p, Kind: p.Kind, JoinK: k, LeftAt: -1, IncStart: incStart}
 		res.Consumers = append(res.Consumers, rec)
 		lc, err := startConsumer(s, p.Kind, sc.Stream)
 		if err != nil {
@@ -182,29 +201,92 @@ func runRelay(c *fw.Ctx, sc relayScenario, rng *rand.Rand) (res relayResult) {
 			join(p, 0)
 		}
 	}
-	pr, err := ref.StartRtmpPublisher(s.RtmpAddr(), "live", sc.Stream, 5*time.Second)
-	if err != nil {
-		res.Err = "publisher: " + err.Error()
-		return
-	}
-	defer pr.Close()
-	if _, ok := s.Notify.WaitSession(5*time.Second, "pub_start", pr.RC.Conn.LocalAddr().String()); !ok {
-		res.Err = "publisher not accepted (pub_start not observed)"
-		return
-	}
-	if sc.PubChunk > 0 && sc.PubChunk != 128 {
-		pr.RC.SetChunkSize(sc.PubChunk)
-	}
-	hook := hooks.Latest(sc.Stream)
-	if hook == nil {
-		res.Err = "no hook session for the stream"
-		return
-	}
+	var pr *ref.RtmpPublisher
+	var hook *srv.HookSession
 	nonEmpty := 0
+	connectPub := func() bool {
+		var err error
+		pr, err = ref.StartRtmpPublisher(s.RtmpAddr(), "live", sc.Stream, 5*time.Second)
+		if err != nil {
+			res.Err = "publisher: " + err.Error()
+			return false
+		}
+		if _, ok := s.Notify.WaitSession(5*time.Second, "pub_start", pr.RC.Conn.LocalAddr().String()); !ok {
+			res.Err = "publisher not accepted (pub_start not observed)"
+			return false
+		}
+		if sc.PubChunk > 0 && sc.PubChunk != 128 {
+			pr.RC.SetChunkSize(sc.PubChunk)
+		}
+		hook = hooks.Latest(sc.Stream)
+		if hook == nil {
+			res.Err = "no hook session for the stream"
+			return false
+		}
+		nonEmpty = 0
+		return true
+	}
+	closePub := func() {
+		paddr := pr.RC.Conn.LocalAddr().String()
+		pr.Close()
+		s.Notify.WaitSession(5*time.Second, "pub_stop", paddr)
+	}
+	defer func() {
+		if pr != nil {
+			pr.Close()
+		}
+	}()
 	waitProcessed := func() bool {
 		return srv.WaitFor(10*time.Second, func() bool { return hook.Count() >= nonEmpty })
 	}
+	// quiescence: no consumer socket made progress for 300 ms (bytes, not messages), at most 15 s
+	stable := func() {
+		last := int64(-1)
+		quiet := 0
+		for k := 0; k < 750; k++ {
+			var sum int64
+			for _, lc := range live {
+				if lc.rtmp != nil {
+					sum += lc.rtmp.RC.BytesRead()
+				} else {
+					sum += lc.http.RawBytes()
+				}
+			}
+			if stub != nil {
+				for _, ss := range stub.Snapshot() {
+					sum += ss.RC.BytesRead()
+				}
+			}
+			if sum == last {
+				quiet++
+				if quiet >= 15 {
+					return
+				}
+			} else {
+				quiet = 0
+			}
+			last = sum
+			time.Sleep(20 * time.Millisecond)
+		}
+	}
+	isIncStart := map[int]bool{}
+	for _, x := range incStart {
+		isIncStart[x] = true
+	}
 	for i, m := range pub {
+		if isIncStart[i] {
+			if i > 0 {
+				if !waitProcessed() {
+					res.Err = "lal did not process all messages of an incarnation"
+					return
+				}
+				stable()
+				closePub()
+			}
+			if !connectPub() {
+				return
+			}
+		}
 		// joins / leaves scheduled before message i
 		ev := false
 		for _, p := range sc.Consumers {
@@ -264,40 +346,8 @@ func runRelay(c *fw.Ctx, sc relayScenario, rng *rand.Rand) (res relayResult) {
 		res.Err = "lal did not process all messages"
 		return
 	}
-	// quiescence: no consumer socket made progress for 300 ms (bytes, not messages), at most 15 s
-	stable := func() {
-		last := int64(-1)
-		quiet := 0
-		for k := 0; k < 750; k++ {
-			var sum int64
-			for _, lc := range live {
-				if lc.rtmp != nil {
-					sum += lc.rtmp.RC.BytesRead()
-				} else {
-					sum += lc.http.RawBytes()
-				}
-			}
-			if stub != nil {
-				for _, ss := range stub.Snapshot() {
-					sum += ss.RC.BytesRead()
-				}
-			}
-			if sum == last {
-				quiet++
-				if quiet >= 15 {
-					return
-				}
-			} else {
-				quiet = 0
-			}
-			last = sum
-			time.Sleep(20 * time.Millisecond)
-		}
-	}
 	stable()
-	paddr := pr.RC.Conn.LocalAddr().String()
-	pr.Close()
-	s.Notify.WaitSession(5*time.Second, "pub_stop", paddr)
+	closePub()
 	stable()
 	for _, lc := range live {
 		if lc.rtmp != nil {
@@ -305,6 +355,12 @@ func runRelay(c *fw.Ctx, sc relayScenario, rng *rand.Rand) (res relayResult) {
 			if e := lc.rtmp.Hist.Err; e != nil && lc.rec.LeftAt < 0 && !isClosedErr(e) {
 				lc.rec.ParseErr = e.Error()
 			}
+		} else if lc.http.Kind == "ts" {
+			body := lc.http.Body()
+			d := ref.NewTsDemux()
+			d.Feed(body[:len(body)/188*188])
+			d.Flush()
+			lc.rec.Ts = &tsRec{Demux: d, Len: len(body)}
 		} else {
 			lc.rec.Items = mapFlv(ix, lc.http.Tags())
 			if e := lc.http.FlvErr(); e != nil {
@@ -350,7 +406,17 @@ func runRelay(c *fw.Ctx, sc relayScenario, rng *rand.Rand) (res relayResult) {
 	if conf.RecFlv {
 		files, _ := filepath.Glob(filepath.Join(s.FlvDir, "*.flv"))
 		rec := &consumerRec{Kind: "record", JoinK: 0, LeftAt: -1, Admitted: true}
-		if len(files) != 1 {
+		if len(shapes) > 1 {
+			// re-publishing within one second re-creates the same file name (name carries the unix
+			// second): only parseability of whatever files exist is judged then
+			rec.JoinK = -2
+			for _, fn := range files {
+				b, _ := os.ReadFile(fn)
+				if _, err := ref.ParseFlvAll(b); err != nil {
+					rec.ParseErr = err.Error()
+				}
+			}
+		} else if len(files) != 1 {
 			rec.ParseErr = fmt.Sprintf("%d record files", len(files))
 		} else {
 			b, _ := os.ReadFile(files[0])
